@@ -109,11 +109,20 @@ def main():
             return finish(meta, sid, src)
         rc, res, out = run_tests(wt)
         failed = [t for t, r in res.items() if r != 'ok']
-        if failed:
-            rc2, res2, _ = run_tests(wt)
-            failed = [t for t in failed if res2.get(t) != 'ok']
+        # order/timing-flaky socket tests (also on the pinned commit): re-run each failing test alone, up to 4 times
+        still = []
+        for t in failed:
+            ok = False
+            for _ in range(4):
+                rc2, res2, _o = run_tests(wt, t.split('::')[-1])
+                if res2 and all(v == 'ok' for v in res2.values()):
+                    ok = True
+                    break
+            if not ok:
+                still.append(t)
+        failed = still
         stable_bad = [t for t in stable if res.get(t) != 'ok']
-        meta['ran'].append('cargo test --offline -- --test-threads 1 (with change): %d tests, still failing after one retry: %s; baseline-38 not ok: %s'
+        meta['ran'].append('cargo test --offline -- --test-threads 1 (with change): %d tests, still failing after 4 single re-runs: %s; baseline-38 not ok: %s'
                            % (len(res), failed, stable_bad))
         meta['suite_failed'] = failed
         if stable_bad:
